@@ -191,6 +191,10 @@ def _d(x):
     return repr(x)
 
 
+BIG_STEPS = {"microseconds": (100, 999, 1000, 250000, 999999, 1000001, 1500000, 60 * 10**6 + 1, 86400 * 10**6 + 1),
+             "seconds": (59, 61, 3599, 3601, 86399, 86401), "minutes": (59, 61, 1439, 1441), "hours": (23, 25, 49)}
+
+
 def cases(M):
     r = gen.rng(M)
     n = (200000 if M.tier == "thorough" else 12000) // M.nshards
@@ -203,6 +207,11 @@ def cases(M):
         steps = r.choice((0, 1, 2, 5, 20, 50, 300)) if j % 200 else r.choice((3000, 10000))
         if unit == "years":
             steps = min(steps, 50)
+        if j % 6 == 1 and unit in BIG_STEPS:
+            # step sizes whose multiples carry into the next larger units (k*n microseconds beyond a second, seconds
+            # beyond a minute / an hour / a day ...), in both directions
+            step = r.choice(BIG_STEPS[unit])
+            steps = min(steps, 300)
         zn = r.choice(host) if j % 3 else r.choice(names)
         z = tzdb.Z.get(zn)
         near = None
